@@ -337,7 +337,7 @@ func runFormats(c *vrt.Ctx) {
 			c.Violationf(k.Name+".Marshal|generated|not-repeatable", rp, "marshalling the same value twice gives different documents (err=%v)", err)
 		}
 		report(c, t, k.Name, enc, 0, chk.Format(k, enc))
-		if c.WantSample() && i%211 == 9 {
+		if c.WantSample() && i == 9 {
 			c.Sample(map[string]any{"codec": k.Name, "document": clipS(string(enc), 300)})
 		}
 	})
